@@ -27,6 +27,7 @@ EXTENDS Integers, Sequences, FiniteSets, TLC, Json, RemotePickleProps
 CONSTANTS Scns, Algo, SeedCopyreg,
           SharedCtx,  \* the load context is one object for the whole process instead of a threading.local (FALSE = as written)
           CtxCopy,    \* context(extra_kwargs) is a (shallow) copy of the caller's dictionary (TRUE = as written)
+          KwOnlyOK,   \* remote_reduce accepts __getnewargs_ex__ returning keyword arguments only (FALSE = as written: RuntimeError)
           InitGuard   \* context.__init__ refuses to start when the thread-local still has a stack (FALSE = the code as written)
 
 VARIABLES scn,                        \* the scenario (never changes)
@@ -186,8 +187,16 @@ Names(i) == IF Node(i).ds THEN SelectSeq([j \in 1..Len(Node(i).ent) |-> Node(i).
 ClaimOf(i) == IF i = 1 THEN [o |-> 0, k |-> ""]
               ELSE IF \E c \in claims : c.n = i THEN LET c == CHOOSE c \in claims : c.n = i IN [o |-> c.o, k |-> c.k]
               ELSE [o |-> -1, k |-> ""]
+\* remote_reduce, _PyObject_GetNewArguments part: __getnewargs_ex__ -> (args, kwargs); no kwargs -> copyreg.__newobj__,
+\* args and kwargs -> copyreg.__newobj_ex__, kwargs only -> RuntimeError('Internal bad call') - before __getstate__ is asked
+DumpRaises == /\ work # <<>> /\ Head(work).a = "v" /\ Head(work).n \notin memo
+              /\ Node(Head(work).n).kind = "opt" /\ Node(Head(work).n).fs = "xo" /\ UsesRR /\ ~KwOnlyOK
+DumpFail ==
+  /\ pc = "dump" /\ DumpRaises
+  /\ res0' = [outcome |-> "raised:RuntimeError"] /\ pc' = "done"
+  /\ UNCHANGED <<scn, cq, cs, cached, created, work, memo, gs, ops, claims, ex, tl>>
 DumpStep ==
-  /\ pc = "dump" /\ work # <<>>
+  /\ pc = "dump" /\ work # <<>> /\ ~DumpRaises
   /\ LET it == Head(work)  i == it.n IN
      IF it.a = "b"
      THEN /\ ops' = Append(ops, [op |-> "B", n |-> i, names |-> <<>>, own |-> 0, key |-> ""])
@@ -326,7 +335,7 @@ LoadsDone ==
   /\ pc' = "done"
   /\ UNCHANGED <<scn, cq, cs, cached, created, res0, work, memo, gs, ops, claims, ex, tl>>
 
-Next == ScanOne \/ DumpScan \/ FinishCls \/ PriorFail \/ FinishLeaf \/ DumpStep \/ DumpDone
+Next == ScanOne \/ DumpScan \/ FinishCls \/ PriorFail \/ FinishLeaf \/ DumpStep \/ DumpFail \/ DumpDone
         \/ (\E e \in 1..(2 * K) : Start(e) \/ StartGuarded(e) \/ Step(e)) \/ LoadsDone
 Spec == Init /\ [][Next]_vars /\ WF_vars(Next)
 
@@ -348,7 +357,13 @@ ExObs(e) == IF ex[e].out # "ok" THEN [outcome |-> ex[e].out, top |-> "none", nod
 StdRest == [i \in 1..NG |-> BaseEnt(scn, i, "L")]
 \* the loads() calls without patches and without injected failure: each of them must equal pickle's round trip
 PlainGood == {k \in 1..K : scn.loads[k].patch = <<>> /\ scn.loads[k].fail = "none"}
-GraphObs == [dump |-> "ok", gs |-> gs,
+NoDump == [outcome |-> "nodump", top |-> "none", nodes |-> <<>>, ss |-> <<>>, pres |-> "T"]
+DumpOutcome == IF res0.outcome = "none" THEN "ok" ELSE res0.outcome
+GraphObs == IF DumpOutcome # "ok"
+            THEN [dump |-> DumpOutcome, gs |-> gs, loads |-> [k \in 1..K |-> NoDump], fresh |-> [k \in 1..K |-> NoDump],
+                  equal_to_pickle |-> IF scn.op = "rp" THEN "F" ELSE "na"]          \* pickle itself dumps the graph
+            ELSE
+            [dump |-> "ok", gs |-> gs,
              loads |-> [k \in 1..K |-> ExObs(k)], fresh |-> [k \in 1..K |-> ExObs(K + k)],
              equal_to_pickle |-> IF scn.op # "rp" \/ K \notin PlainGood THEN "na"
                                  ELSE IF \A k \in PlainGood : ex[k].out = "ok" /\ ex[k].rest = StdRest THEN "T" ELSE "F"]
@@ -383,7 +398,8 @@ Live_Terminates == <>Terminal
 \* ---- the code as written: the same invariants, weakened by exactly the listed shapes ----
 AsIs_C13_NonOptInEqualsPickle == Terminal => (C13_NonOptInEqualsPickle(Rec) \/ Known_C13(scn))
 AsIs_C13_RemoteFalseIsStd     == Terminal => (C13_RemoteFalseIsStd(Rec) \/ Known_C13(scn))
-AsIs_C14_LoadsSucceeds == (Terminal /\ scn.t = "graph") => (C14_LoadsSucceeds(Rec) \/ Known_C15(scn))
+AsIs_C14_LoadsSucceeds == (Terminal /\ scn.t = "graph") => (C14_LoadsSucceeds(Rec) \/ Known_C15(scn) \/ K_KwOnly(scn))
+AsIs_C14_Once          == (Terminal /\ scn.t = "graph") => (C14_Once(Rec) \/ K_KwOnly(scn))
 AsIs_C15_Delivery      == (Terminal /\ scn.t = "graph") => (C15_Delivery(Rec) \/ Known_C15(scn))
 AsIs_C15_OnlyAddressed == (Terminal /\ scn.t = "graph") => (C15_OnlyAddressed(Rec) \/ Known_C15(scn))
 AsIs_C15_NoResidue     == (Terminal /\ scn.t = "graph") => (C15_NoResidue(Rec) \/ K_DeepPatch(scn))
@@ -398,6 +414,8 @@ R_LateCopyreg  == Terminal /\ scn.t = "leaf" /\ scn.kind = "copyreg_late" /\ res
 R_FailedThenLoad == pc = "load" /\ \E e \in 2..K : CanStart(e) /\ tl[Thr(e)].has /\ ex[e - 1].out = "raised:injected" /\ LoadOf(e).fail = "none"
 R_ParPlain     == pc = "load" /\ OptNodes(scn) = {} /\ K >= 2 /\ ex[1].st = "run" /\ ex[2].st = "run"
 R_Residue2     == Terminal /\ scn.t = "graph" /\ \E e \in 1..K : \E m \in ex[e].pm : Len(m.p) >= 2
+R_NewArgsEx    == Terminal /\ scn.t = "graph" /\ res0.outcome = "none" /\ \E i \in 1..NG : scn.g[i].fs \in {"xa", "xk"} /\ ex[1].ssn[i] = 1
+R_KwOnly       == Terminal /\ scn.t = "graph" /\ res0.outcome = "raised:RuntimeError"
 R_LowProto     == Terminal /\ scn.t = "leaf" /\ scn.pclass = "low" /\ scn.lowfails
 R_Siblings     == pc = "load" /\ \E t \in DOMAIN tl : Len(tl[t].stack) >= 3
 R_PatchDelivered == Terminal /\ scn.t = "graph" /\ \E e \in 1..K : ex[e].out = "ok" /\ ex[e].pm # {}
@@ -417,7 +435,7 @@ WitDump == /\ Wit("Warning", R_Warning) /\ Wit("DumpWarning", R_DumpWarning) /\ 
            /\ Wit("PatchDelivered", R_PatchDelivered) /\ Wit("Failure", R_Failure) /\ Wit("Residue", R_Residue)
            /\ Wit("Concurrency", R_Concurrency) /\ Wit("MemoGet", R_MemoGet) /\ Wit("StdPath", R_StdPath)
            /\ Wit("AfterFail", R_AfterFail) /\ Wit("Falsy", R_Falsy)
-           /\ Wit("FailedThenLoad", R_FailedThenLoad) /\ Wit("ParPlain", R_ParPlain) /\ Wit("NestedResidue", R_Residue2) /\ Wit("LateCopyreg", R_LateCopyreg) /\ Wit("LowProto", R_LowProto)
+           /\ Wit("FailedThenLoad", R_FailedThenLoad) /\ Wit("NewArgsEx", R_NewArgsEx) /\ Wit("KwOnly", R_KwOnly) /\ Wit("ParPlain", R_ParPlain) /\ Wit("NestedResidue", R_Residue2) /\ Wit("LateCopyreg", R_LateCopyreg) /\ Wit("LowProto", R_LowProto)
 
 \* ---- every terminal state as a case for the replay on the real code ----
 CaseDump == Terminal => PrintT(<<"CASE", ToJson(Rec)>>)
